@@ -119,10 +119,10 @@ class Gen:
     def member(self):
         if self.tuple_member_kinds:
             r = self.rng.random()
-            if self.arith and r < 0.07:
+            if self.arith and r < 0.03:
                 self.features.add("arith-member-in-tuple")
                 return self.arith_expr(1)
-            if r < 0.12:
+            if r < 0.05:
                 self.features.add("const")
                 self.features.add("int-const")
                 return {"t": "const", "v": float(self.rng.randint(-3, 3)).hex(), "int": True}
@@ -138,7 +138,7 @@ class Gen:
             weights = [4, 3, 3, 2, 2 if depth > 0 else 0, 2 if depth > 0 else 0] + ([1, 1] if self.big_tuples else [])
             if self.underscore_classes:
                 names += ["CE", "LC"]
-                weights += [1.5, 1.5]
+                weights += [0.8, 0.8]
             if self.more_forms:
                 names += ["N3", "L1"]
                 weights += [1.5 if depth > 0 else 0, 1.5 if depth > 0 else 0]
@@ -247,6 +247,13 @@ class Gen:
                 newc = {"t": "const", "v": (rng.randint(-12, 12) / 4.0 + 0.125).hex()}
                 items.append([key, {"t": "copy", "of": j, "set": [[arg, newc]]}])
                 self.features.add("copy-with-different-constant")
+        # opt-in: the SAME component object under a second key
+        if self.more_forms and rng.random() < 0.15:
+            cands = [j for j, (k, sub) in enumerate(items) if sub["t"] == "model"]
+            if cands:
+                key = str(len(items)) if form in ("list", "append", "varargs") else "same"
+                items.append([key, {"t": "alias", "of": rng.choice(cands)}])
+                self.features.add("same-object-twice")
         return {"t": "coll", "form": form, "items": items}
 
     def program(self):
@@ -273,7 +280,7 @@ class Gen:
                 return dict(e, items=[[k, ren(v)] for k, v in e["items"]])
             if e["t"] == "array":
                 return dict(e, elems=[ren(m) for m in e["elems"]])
-            return e   # const, copy, default
+            return e   # const, copy, alias, default
         root = ren(root)
         if self.defaults:
             assign_default_refs(root, pool)
@@ -407,9 +414,9 @@ def resolve_copies(coll):
     import copy as _copy
     items = []
     for k, sub in coll["items"]:
-        if sub["t"] == "copy":
+        if sub["t"] in ("copy", "alias"):
             src = _copy.deepcopy(items[sub["of"]][1])
-            for arg, newc in sub["set"]:
+            for arg, newc in sub.get("set", []):
                 src["kw"][arg] = newc
             sub = src
         items.append([k, sub])
